@@ -94,12 +94,24 @@ def _closes_cast(res):
     return n >= 1 and k >= 0 and res[k] == '(' and (k == 0 or not re.fullmatch(r'[A-Za-z_]\w*', res[k - 1]) or res[k - 1] in ('return',))
 
 
+class EmitterOutOfBounds(AnalysisBroken):
+    """a module-level emitter indexes one of the module's arrays (types, imports, functions, exports, segments) past its end while
+    writing a concrete valid module: definite (R06.10) where C06 evaluates it, analysis-broken for the other checks that share emit_text"""
+
+
 def emit_text(it, fname, mkargs):
     """run a FILE*-based emitter; mkargs(file Text) -> args"""
     def setup():
         out = Text('out')
         return (fname, mkargs(out), {'out': out, 'stream': emit.Stream([])})
-    paths = it.explore(setup)
+    sb = getattr(it, 'strict_bounds', False)
+    it.strict_bounds = True
+    try:
+        paths = it.explore(setup)
+    except pe.OutOfBounds as e:
+        raise EmitterOutOfBounds('%s: %s' % (fname, e))
+    finally:
+        it.strict_bounds = sb
     good = [p for p in paths if not p.aborted and (p.ret is None or p.ret == 1)]
     if len(good) != 1:
         raise AnalysisBroken('%s: %d paths, %d successful' % (fname, len(paths), len(good)))
@@ -853,6 +865,18 @@ def check_zero_globals(chk, it):
 
 
 def run(chk):
+    try:
+        _run(chk)
+    except EmitterOutOfBounds as e:
+        # R06.10: every index the set-up emitters use is an index of the space it is used in (an export's index is a function / table /
+        # memory / global index, never the export's own position): writing a valid module never reads past a module array
+        chk.fail('R06.10', 'emitter-index-spaces', 'while writing the instance set-up of a valid module the translator indexes a module array '
+                 'past its end (%s): an index of one space (export position, import row, function index) is used in another, so for other '
+                 'modules the wrapper / binding silently takes the row of a different object' % e, 'wasmCWriteInits:index-space')
+        raise AnalysisBroken('stopped at the out-of-bounds read')
+
+
+def _run(chk):
     chk.explanation = (
         'The module-level emitters are partially evaluated on %d concrete module shapes (defined/imported/no memory x table, globals, '
         'active/passive data segments, start) and the emitted C is analysed: which Init functions are defined vs called from Instantiate '
